@@ -478,38 +478,37 @@ def obligations(tier: str) -> List[dict]:
     else:
         for n in (0, 1, 2, 3, 4, 5, 6):
             sliced(G, '_parse', n, [], 600, entry='_parse')
-        sliced(G, '_parse', 7, node3, 900, ['accepted'], entry='_parse')
-        sliced(G, '_parse', 8, node3 + [(LP, SY, RP), (CM, LP, SY)], 2400,
+        sliced(G, '_parse', 7, node3 + [(LP, SY, RP), (LP, RP), (CM,)], 900,
                ['accepted'], entry='_parse')
         node4 = [(LP, SY, SL, SY), (LP, SY, SL, tk.STRING),
                  (LP, SY, SL, RO), (LP, SY, RO, SY), (LP, SY, RO, LP),
                  (LP, SY, RO, tk.ALIGNMENT), (LP, SY, RO, RO),
-                 (LP, SY, RO, tk.STRING)]
-        sliced(G, '_parse', 9, node4, 3000, ['accepted'], entry='_parse')
-        sliced(G, 'parse', 7, node3, 900, ['accepted'], entry='parse')
+                 (LP, SY, RO, tk.STRING), (LP, SY, RP), (LP, RP), (CM, LP),
+                 (CM, CM)]
+        sliced(G, '_parse', 8, node4, 1800, ['accepted'], entry='_parse')
+        sliced(G, 'parse', 7, node3 + [(LP, SY, RP), (LP, RP), (CM,)], 900,
+               ['accepted'], entry='parse')
         for n in (1, 2, 3, 4, 5):
             sliced(I, 'iterparse', n, [], 600)
         sliced(I, 'iterparse', 6, [(LP, RP), (LP, SY)], 900, ['two-graphs'])
-        sliced(I, 'iterparse', 7, [(LP, RP, LP), (LP, SY, RP), (LP, SY, SL),
-                                   (LP, SY, RO), (CM,)], 2400)
+        sliced(I, 'iterparse', 7, [(LP, RP, LP), (LP, RP, CM), (LP, SY, RP),
+                                   (LP, SY, SL), (LP, SY, RO), (CM,)], 1800)
         for n in (0, 1, 2, 3, 4):
             sliced(T, 'parse_triples', n, [], 600, tlen=2)
         sliced(T, 'parse_triples', 5, [(SY, LP, SY)], 1500, ['accepted'],
                tlen=2)
         sliced(T, 'parse_triples', 6, [(SY, LP, SY, SY), (SY, LP, SY, RP)],
-               2400, ['accepted'], tlen=2)
+               1800, ['accepted'], tlen=2)
         sliced(T, 'parse_triples', 4, [(SY, LP)], 1500, tlen=3)
-        sliced(T, 'parse_triples', 9, [(SY, LP, SY, RP, SY, LP)], 3000,
+        sliced(T, 'parse_triples', 9, [(SY, LP, SY, RP, SY, LP)], 1800,
                ['two-triples'], tlen=1)
         for entry in (0, 1):
             for f0 in range(len(ML_FRAGS)):
-                for s0 in range(len(ML_SEPS)):
-                    obs.append({'name': f'E2 multi-line text k=4 '
-                                        f'entry={entry} f0={f0} s0={s0}',
-                                'kind': 'e2', 'fn': 'h_parse_multiline',
-                                'fixed': {'k': 4, 'entry': entry, 'f0': f0,
-                                          's0': s0},
-                                'timeout': 3000, 'bound': '4 fragments'})
+                obs.append({'name': f'E2 multi-line text k=4 '
+                                    f'entry={entry} f0={f0}',
+                            'kind': 'e2', 'fn': 'h_parse_multiline',
+                            'fixed': {'k': 4, 'entry': entry, 'f0': f0},
+                            'timeout': 1800, 'bound': '4 fragments'})
         obs.append({'name': 'E2 parse(text) len<=2', 'kind': 'e2',
                     'fn': 'h_parse_text',
                     'fixed': {'maxlen': 2, 'first': 'any'}, 'timeout': 600,
@@ -524,7 +523,7 @@ def obligations(tier: str) -> List[dict]:
             obs.append({'name': f'E2 parse(text) len=4 first={cls}',
                         'kind': 'e2', 'fn': 'h_parse_text',
                         'fixed': {'maxlen': 4, 'first': cls},
-                        'timeout': 3000, 'bound': 'len(s) == 4',
+                        'timeout': 1800, 'bound': 'len(s) == 4',
                         'need_marks': ['accepted'] if cls == 'lparen' else []})
     return obs
 
